@@ -737,6 +737,10 @@ func c28LeanD1() []string {
 	}
 	out = append(out, "m + on(a) group_left(b) m", "m == bool 1", "sum(m)", "sum by (a) (m)", "topk(2, m)", `count_values("s", m)`,
 		"-m", "+(m)", "abs(m)", "rate(m[5s])", "time()", "(m)[5s:]", "abs(m)[5s:1s]", "(1)")
+	// signed operands, raw and parenthesised: the parser folds a sign into a number literal, and a
+	// unary sign binds weaker than ^ and than a subquery suffix, so whether the parentheses survive
+	// the round trip decides the grouping when these are operands one level up
+	out = append(out, "-1", "(-1)", "(+1)", "-(1)", "(-Inf)", "(-m)", "(+m)", "-(m)", "(-1.5e3)", "(NaN)")
 	return out
 }
 
